@@ -41,6 +41,7 @@ class PipelineUnit(WeaverUnit):
             rec["op"] = "recreate"
             if s == "function":
                 rec["coef"] = [0.5, 1.0]
+                rec["fn_kind"] = "poly"
             script = ([{"op": "append", "periodic": periodic}] if periodic is not None else []) + [
                 rec, {"op": "integral_match", "rt": rt, "rr": "rectangle", "alpha": rng.choice([1.0, 1.0, 2.0, 0.5])}]
             return {"x": x, "y": y, "script": script, "seed": rng.randrange(1 << 30), "len": len(script), "pool": [], "as_list": False,
